@@ -127,5 +127,20 @@ CHECKS = {
           "methods carry no HttpPatterns. Five defects repaired; no open finding.",
   'technique': 'Coq proof over a Gallina model of registry + routing + source-extracted routing tokens (routekeys translator) + differential correspondence over applications x permutations x protocols + invocation-counter oracle',
  },
+ 'C14': {
+  'text': "For both the WSGI transport and the ServerBase call sequence, for every outcome of the pipeline stages in the "
+          "property's alphabet and every set of event managers and listener behaviours, the event trace of the pipeline "
+          "programs REGENERATED from the current source is: created first / closed last exactly once; the function at most once "
+          "and only after a completed method_call; method_return_object iff normal return; method_exception_object iff the "
+          "call ends in a fault, followed by the matching document/string events; listeners run in registration order, once "
+          "per manager, inherited at class creation (induction over registration programs).",
+  'design_ref': 'DESIGN.md section 6 (C14)',
+  'note': TB + "Pipeline programs (context.py, server/_base.py, application.py process_request, server/http.py, server/wsgi.py "
+          "handle_rpc/handle_error/__finalize) are regenerated by a fail-closed ast translator on every run and the theorems "
+          "re-proved over them (exhaustive path exploration decided by vm_compute + a proved every-run-is-a-path lemma). "
+          "Generator/push/MTOM/aux paths are flagged, not modelled; protocol serialize/deserialize bodies are library steps "
+          "whose outcomes are observed inputs. One finding listed (ServerBase lets a serialiser exception escape).",
+  'technique': 'Coq proof over a statement-language model of the pipeline generated from source (pipeline translator) + path exploration with soundness lemma + induction over registration programs + trace correspondence + listener-level oracle',
+ },
 }
 NOT_APPLICABLE = {}
